@@ -1,5 +1,6 @@
 import FordModel.Proto
 import FordModel.Parse
+import FordModel.TypeSpec
 namespace Ford
 open Proto Parse
 
@@ -49,6 +50,12 @@ partial def showEv : Ev → String
   | .inr (lk, id) => lkStr lk ++ ":" ++ toString id
 end
 
+def optStr : Option Str → Str
+  | none => "-".toList
+  | some s => '+' :: s
+
+def tErrStr (e : TypeSpec.TErr) : String := (reprStr e).replace "Ford.TypeSpec.TErr." ""
+
 def errStr (e : Err) : String := (reprStr e).replace "Ford.Parse.Err." ""
 def excStr (e : Exc) : String := (reprStr e).replace "Ford.Parse.Exc." ""
 
@@ -60,6 +67,14 @@ def dispatchC01 : List Str → Option (List Str)
       match parseFile (args.map C01D.itemOf) with
       | .ok (n, errs) => some ["ok".toList, (C01D.showNode n).toList, (String.intercalate "," (errs.map C01D.errStr)).toList]
       | .error e => some ["exc".toList, (C01D.excStr e).toList]
+    else if cmd == "c01.parsetype".toList then
+      match args with
+      | [s] =>
+        match TypeSpec.parseType s with
+        | .ok p => some ["ok".toList, p.vartype, p.rest, C01D.optStr p.kind, C01D.optStr p.strlen,
+                         C01D.optStr (p.proto.map (·.1)), C01D.optStr (p.proto.map (·.2))]
+        | .error e => some ["err".toList, (C01D.tErrStr e).toList]
+      | _ => some ["bad-args".toList]
     else none
   | [] => none
 
